@@ -813,6 +813,17 @@ def mk_cmp(op, a, b):
         r = _int_cmp(op, a, b)
         if r is not None:
             return r
+    if op in ('==', '!=') and ((is_int(a) and type(a[1]) is int and is_pyint(b)) or (is_int(b) and type(b[1]) is int and is_pyint(a))):
+        # x + c1 == c2  is  x == c2 - c1
+        cst, oth = (a, b) if is_int(a) else (b, a)
+        if oth[0] == '+':
+            cs = [y for y in oth[1] if is_int(y) and type(y[1]) is int]
+            if cs:
+                rest = [y for y in oth[1] if not (is_int(y) and type(y[1]) is int)]
+                acc = rest[0]
+                for y in rest[1:]:
+                    acc = mk_bin('+', acc, y, Opts(plus_commutes=True))
+                a, b = C(cst[1] - sum(y[1] for y in cs)), acc
     if op in ('==', '!=', 'is', 'isnot'):
         if skey(b) < skey(a):
             a, b = b, a
@@ -1147,6 +1158,17 @@ def obj_attrs(t):
     return {a[1]: a[2] for a in t[2]} if t[0] == 'obj' else {}
 
 
+def call_arg(t, name, pos):
+    """argument of a call term given by keyword `name` or at position `pos` (keywords that fill the next positional
+    parameters are normalised to positional arguments)"""
+    if t[0] != 'call':
+        return None
+    for k in t[3]:
+        if k[1] == name:
+            return k[2]
+    return t[2][pos] if len(t[2]) > pos else None
+
+
 def kwargs_of(t):
     """keyword arguments of a call term as a dict"""
     return {k[1]: k[2] for k in t[3]} if t[0] == 'call' else {}
@@ -1278,6 +1300,23 @@ class PE:
         return ('tuple', items)
 
     def ev_List(self, n, env):
+        if any(isinstance(e, ast.Starred) for e in n.elts):
+            acc, cur = None, []
+            for e in n.elts:
+                if isinstance(e, ast.Starred):
+                    if cur:
+                        piece = ('list', tuple(cur))
+                        acc = piece if acc is None else mk_bin('+', acc, piece, self.opts)
+                        cur = []
+                    v = self.ev(e.value, env)
+                    r = self.call(('b', 'list'), (v,), (), env)
+                    acc = r if acc is None else mk_bin('+', acc, r, self.opts)
+                else:
+                    cur.append(self.ev(e, env))
+            if cur:
+                piece = ('list', tuple(cur))
+                acc = piece if acc is None else mk_bin('+', acc, piece, self.opts)
+            return acc
         return ('list', tuple(self.ev(e, env) for e in n.elts))
 
     def ev_Set(self, n, env):
@@ -1596,6 +1635,18 @@ class PE:
 
     def call(self, f, args, kw, env, node=None):
         args = tuple(args)
+        if kw and f[0] == 'g' and getattr(self, 'sig_of', None) is not None and not any(k[1] == '**' for k in kw) \
+                and not any(a[0] == 'star' for a in args):
+            # Poly(ks, size=8) is Poly(ks, 8): keyword arguments that fill the next positional parameters, in order
+            names = self.sig_of(f[1])
+            if names:
+                kwd = {k[1]: k[2] for k in kw}
+                args2 = list(args)
+                while len(args2) < len(names) and names[len(args2)] in kwd:
+                    args2.append(kwd.pop(names[len(args2)]))
+                if len(args2) != len(args):
+                    args = tuple(args2)
+                    kw = tuple(k for k in kw if k[1] in kwd)
         if f[0] == 'attr' and f[2] == 'get' and len(args) == 2 and args[1] == NONE and not kw:
             args = args[:1]                                   # d.get(k, None) is d.get(k)
         if f[0] == 'b' and f[1] == 'getattr' and len(args) == 2 and not kw and is_c(args[1]) and isinstance(args[1][1], str):
@@ -1604,6 +1655,11 @@ class PE:
             return ('dict', tuple(sorted(((C(k[1]), k[2]) for k in kw), key=lambda kv: skey(kv[0]))))
         if f[0] == 'b' and f[1] == 'bytes' and len(args) == 1 and not kw and is_bytes(args[0]):
             return args[0]                                    # bytes(b) of a bytes value is b
+        if f[0] == 'b' and f[1] in ('max', 'min') and len(args) == 2 and not kw \
+                and kind_of(args[0]) != 'seq' and kind_of(args[1]) != 'seq' and not (is_c(args[0]) and is_c(args[1])) \
+                and args[0][0] not in ('comp', 'star') and args[1][0] not in ('comp', 'star'):
+            a_, b_ = args
+            return mk_ite(mk_cmp('<', a_, b_), b_, a_) if f[1] == 'max' else mk_ite(mk_cmp('<', b_, a_), b_, a_)
         if f[0] == 'b' and f[1] == 'reversed' and len(args) == 1 and not kw and args[0][0] != 'range' \
                 and canon_seq(args[0], self.opts) is not None and iter_items(args[0]) is None:
             return get_idx(args[0], REV)                      # reversed(x) of an indexable value is x[::-1]
@@ -1710,6 +1766,8 @@ class PE:
             if name in ('list', 'tuple') and len(args) == 1:
                 it = iter_items(args[0])
                 if it is not None:
+                    if name == 'tuple' and it and all(concrete(x) for x in it):
+                        return ('list', tuple(it))        # same canonical form as a constant tuple literal
                     return (name, tuple(it))
                 if args[0][0] == 'enumerate' or args[0][0] == 'zip':
                     return None
@@ -2332,12 +2390,23 @@ class PE:
                             k = mk_bin('+', k, r_, self.opts)
                 if k is not None and kind_of(inits[rank]) != 'seq':
                     ivs[v] = (rank, k, '+')
+                elif nx[0] == 'ite' and is_int(inits[rank]) and type(inits[rank][1]) is int and inits[rank][1] >= 0:
+                    # wrapping counter:  j += 1; if j == M: j = 0   ->   (j0 + iterations) % M
+                    o_ = Opts(plus_commutes=True)
+                    t_ = mk_bin('+', phi, C(1), o_)
+                    cands = [x for x in walk(nx[1]) if is_int(x) and type(x[1]) is int and x[1] > inits[rank][1]]
+                    for m_ in {x[1] for x in cands} | {x[1] + 1 for x in cands}:
+                        if mk_ite(mk_cmp('==', t_, C(m_)), C(0), t_) == nx:
+                            ivs[v] = (rank, C(1), ('mod', m_))
+                            break
                 elif nx[0] in ('>>', '<<') and len(nx[1]) == 2 and nx[1][0] == phi and is_int(nx[1][1]) and type(nx[1][1][1]) is int:
                     ivs[v] = (rank, nx[1][1], nx[0])      # running shift: v >>= c  ->  v0 >> (c * iterations)
             if ivs:
                 cnt = cntsym()
 
                 def closed(rank, k, how, n):
+                    if type(how) is tuple and how[0] == 'mod':
+                        return mk_bin('%', mk_bin('+', inits[rank], n, self.opts), C(how[1]), self.opts)
                     if how == '+':
                         return mk_bin('+', inits[rank], mk_bin('*', k, n, self.opts), self.opts)
                     return mk_bin(how, inits[rank], mk_bin('*', k, n, self.opts), self.opts)
@@ -2465,6 +2534,18 @@ class PE:
                                 e, how = x, 'chain'
                         elif inits[rank][0] == 'c' and isinstance(inits[rank][1], (bytes, str)):
                             e, how = x, 'join'
+                    if e is None and cond is None and isrange and nx[0] == 'upd' and nx[1] == phi and len(nx[2]) == 1 \
+                            and nx[2][0][0] == itsym():
+                        init_ = inits[rank]
+                        n_ = None
+                        if init_[0] == 'list':
+                            n_ = C(len(init_[1]))
+                        elif init_[0] == '*' and len(init_[1]) == 2:
+                            for lst_, cnt_ in (init_[1], init_[1][::-1]):
+                                if lst_[0] == 'list' and len(lst_[1]) == 1:
+                                    n_ = cnt_
+                        if n_ is not None and n_ == it[2]:
+                            e, how = nx[2][0][1], 'store'      # every slot of the pre-sized list is overwritten
                     if e is None or mentions(e, loopsym):
                         continue
                     folds[v] = (rank, e, how, cond)
@@ -2514,7 +2595,9 @@ class PE:
                             if okc:
                                 comp = ('list', tuple(items))
                         init = inits[rank]
-                        if how == 'join':
+                        if how == 'store':
+                            pending_folded[v] = comp
+                        elif how == 'join':
                             empty = C(b'') if isinstance(init[1], bytes) else C('')
                             joined = ('call', ('attr', empty, 'join'), (comp,), ())
                             pending_folded[v] = joined if init == empty else mk_bin('+', init, joined, self.opts)
@@ -2854,6 +2937,8 @@ def substitute(t, sub, opts=None):
             out = ('call', f2, tuple(rec(x) for x in t[2]), tuple(('kw', k[1], rec(k[2])) for k in t[3]))
         else:
             out = tuple(rec(x) if type(x) is tuple else x for x in t)
+            if tag == 'tuple' and len(out) == 2 and out[1] and all(concrete(x) for x in out[1]):
+                out = ('list', out[1])          # a tuple of constants has the canonical form of the literal (see ev_Tuple)
         memo[k] = (t, out)
         return out
     return rec(t)
